@@ -133,7 +133,7 @@ func genScenario(prop string, rng *rand.Rand) *Scenario {
 
 func runProp(prop string, seed int64, count, scheds, dfsBound, dfsCap int) {
 	rng := rand.New(rand.NewSource(seed))
-	for i := 0; i < count; i++ {
+	for i := 0; i < count && rt.StuckTotal < 3; i++ {
 		sc := genScenario(prop, rng)
 		if dfsBound > 0 {
 			n := 0
@@ -144,7 +144,7 @@ func runProp(prop string, seed int64, count, scheds, dfsBound, dfsCap int) {
 			})
 			continue
 		}
-		for s := 0; s < scheds; s++ {
+		for s := 0; s < scheds && rt.StuckTotal < 3; s++ {
 			st := &rt.Random{State: uint64(seed)*1000003 + uint64(i)*7919 + uint64(s)*104729 + 1, Stickiness: []int{0, 50, 80, 95}[s%4]}
 			c := runScenario(sc, st)
 			emit("#case %s-%d-r%d", prop, i, s)
@@ -166,7 +166,7 @@ func exploreGeneric(runOnce func(rt.Strategy) *rt.Controller, bound, cap int, vi
 	}
 	stack := []item{{}}
 	runs := 0
-	for len(stack) > 0 && runs < cap {
+	for len(stack) > 0 && runs < cap && rt.StuckTotal < 3 {
 		it := stack[len(stack)-1]
 		stack = stack[:len(stack)-1]
 		rp := &rt.Replay{Choices: it.prefix}
